@@ -103,6 +103,9 @@ def case_out_buffers(rep):
                 f([F, None], out=buf)
                 reused = np.array(f([F2, None], out=buf)[0])
                 s = max(maxabs(ref1), 1e-300)
+                # "out: a location into which the result is stored": the buffer handed in holds the returned tensor afterwards
+                run.compare(mon, "model=%s method=%s clause=out-buffer-holds-result" % (name, what), max(maxabs(fresh - ref1), maxabs(garbage - ref1)) / s, 1e-13,
+                            "%s.%s(out=buffer): the buffer does not hold the result after the call" % (name, what), unit="out:holds-result", config=(name, what, "holds"))
                 for tag, got, ref in (("fresh", r, ref1), ("garbage", g, ref1), ("reused", reused, ref2), ("non-finite", np.nan_to_num(pz, nan=1e300, posinf=1e300, neginf=-1e300), ref1)):
                     run.compare(mon, "model=%s method=%s clause=out-buffer-%s" % (name, what, tag), maxabs(got - ref) / s, 1e-13,
                                 "%s.%s(out=%s buffer) differs from the result without a buffer" % (name, what, tag),
@@ -117,6 +120,18 @@ def case_out_buffers(rep):
         got = [np.array(a) for a in um.gradient([F, p, J, None], out=buf)[:3]]
         run.compare(mon, "model=NearlyIncompressible method=gradient clause=out-buffer-garbage", max(maxabs(a - b) for a, b in zip(got, ref)),
                     1e-13, "NearlyIncompressible.gradient(out=buffer) differs", unit="out:NearlyIncompressible:gradient")
+        for inner_name, inner in (("NeoHooke(mu)", fem.NeoHooke(mu=1.2)), ("NeoHookeCompressible(mu,lmbda)", fem.NeoHookeCompressible(mu=1.2, lmbda=0.8))):
+            um = fem.NearlyIncompressible(inner, bulk=9.0)
+            refh = [np.array(a) for a in um.hessian([F, p, J, None]) if a is not None]
+            bufh = rng.standard_normal((3, 3, 3, 3) + batch)
+            goth = [np.array(a) for a in um.hessian([F, p, J, None], out=bufh) if a is not None]
+            sh = max(maxabs(refh[0]), 1e-300)
+            run.compare(mon, "model=NearlyIncompressible(%s) method=hessian clause=out-buffer-garbage" % inner_name,
+                        max(maxabs(a - b) for a, b in zip(goth, refh)) / sh, 1e-13, "NearlyIncompressible.hessian(out=buffer) differs from the result without a buffer",
+                        unit="out:NearlyIncompressible:hessian", config=("NI-hessian-out", inner_name))
+            run.compare(mon, "model=NearlyIncompressible(%s) method=hessian clause=out-buffer-holds-result" % inner_name, maxabs(bufh - refh[0]) / sh, 1e-13,
+                        "NearlyIncompressible.hessian(out=buffer): the buffer does not hold the displacement block afterwards", unit="out:holds-result",
+                        config=("NI-hessian-out-holds", inner_name))
     return fn
 
 
@@ -413,6 +428,7 @@ def _required():
     req += [w + ":hessian" for w in SMALL] + ["Laplace:gradient"]
     for n in ("NeoHooke(mu,bulk)", "NeoHooke(mu)", "Volumetric(bulk)", "NeoHookeCompressible(mu,lmbda)", "NeoHookeCompressible(mu)"):
         req += ["out:%s:gradient" % n, "out:%s:hessian" % n]
+    req += ["out:holds-result", "out:NearlyIncompressible:hessian"]
     req += ["VolumeChange:hessian", "VolumeChange[parallel]:hessian", "AreaChange:gradient", "AreaChange[N]:gradient", "AreaChange[N][parallel]:gradient",
             "LineChange:gradient", "NeoHooke(mu,bulk)[parallel]:hessian", "tt.yeoh[parallel]:hessian", "NeoHooke(mu,bulk)[2x2]:hessian",
             "NeoHookeCompressible(mu,lmbda)[F=I]:hessian", "Laplace[1x3]:hessian", "OgdenRoxburgh(NeoHooke(mu))[unloading]:hessian", "OgdenRoxburgh(NeoHooke)[weak softening]:hessian",
